@@ -133,7 +133,12 @@ def explore(h, max_states=200000, seed=0, max_wall=None, check_key_soundness=Tru
             res.exhaustive = False
             break
         prefix, pkey, plabel = stack.pop()
-        ex = Execution(h)
+        try:
+            ex = Execution(h)
+        except vmp.Spinning as e:
+            res.exhaustive = False
+            res.unsound = "exploration stopped: %s" % e
+            break
         res.executions += 1
         spun = False
         choices = list(prefix)
@@ -219,12 +224,10 @@ def explore(h, max_states=200000, seed=0, max_wall=None, check_key_soundness=Tru
                     break
                 if len(choices) > MAXSTEPS:
                     raise vmp.VmpError("horizon exceeded")
-        except vmp.Spinning:
-            # a process busy-waits outside the virtual layer: report it and stop exploring this configuration
-            # (every further execution would only run into the same watchdog)
-            for sig, detail in ex.step_violations():
-                res.violation(sig, detail, ex.sched.trace)
+        except vmp.Spinning as e:
+            # a process busy-waits outside the virtual layer: the exploration cannot go on (not a verdict)
             res.exhaustive = False
+            res.unsound = "exploration stopped: %s" % e
             spun = True
         finally:
             ex.close()
